@@ -45,6 +45,21 @@ def enum_shapes_thorough(codes, maxlen=3):
     return out
 
 
+def four_variant_enums(codes):
+    """thorough only: four variants, each kind at each position, field lists rotating through the codes"""
+    out = []
+    n = len(codes)
+    kinds = ['named', 'tuple', 'unit', 'tuple']
+    for r in range(4 * n):
+        vs = []
+        for k in range(4):
+            kind = kinds[(k + r) % 4]
+            fl = [] if kind == 'unit' else [codes[(r + k + j) % n] for j in range(1 + (r + k) % 3)]
+            vs.append((kind, fl))
+        out.append(('enum', vs))
+    return out
+
+
 def quick_core(codes, maxlen=3):
     """Pairwise-style core: every code at first / middle / last position of a 3-field named and
     tuple struct and of each enum variant kind, plus unit/single shapes."""
@@ -74,6 +89,12 @@ def quick_core(codes, maxlen=3):
         comp = [('unit', []), (kind, [t[0], t[2]])]
         comp.insert(j % 3, (other, t))
         out.append(('enum', comp))
+    # degenerate shapes: zero-field tuple / named structs and variants, single-variant enums
+    out.append(('struct', [('tuple', [])]))
+    out.append(('struct', [('named', [])]))
+    out.append(('enum', [('tuple', []), ('named', []), ('unit', [])]))
+    out.append(('enum', [('named', [codes[0], codes[-1]])]))
+    out.append(('enum', [('tuple', [codes[-1]]), ('tuple', [])]))
     for a in codes:
         out.append(('struct', [('tuple', [a])]))
         out.append(('struct', [('named', [a, codes[0]])]))
